@@ -3,6 +3,7 @@
 use super::*;
 use crate::api::*;
 use crate::pair::*;
+use vfs::VfsPath;
 
 fn sync_sys(cfg: &Cfg, order: Order, prefix: &str) -> Box<dyn Sys> {
     Box::new(SyncSys {
@@ -242,13 +243,76 @@ pub fn run_c02(ctx: &Ctx) -> i32 {
             });
         }
     }
+    // every public way of constructing the in-memory backend gives the same (empty) filesystem:
+    // `new()`, `default()`, `VfsPath::from(..)` - all programs of <= 2 calls compared with `new()`
+    {
+        let alpha = alphabet(u4(), &[b"x"], 1, true);
+        // (copying or moving a directory into its own subtree does not terminate: documented, excluded)
+        let ops: Vec<Op> = alpha
+            .all_ops()
+            .into_iter()
+            .filter(|o| match (o, o.dest()) {
+                (Op::CopyDir(p, _) | Op::MoveDir(p, _) | Op::CopyFile(p, _) | Op::MoveFile(p, _), Some(q)) => !(crate::ops::is_within(q, p) && p != q),
+                _ => true,
+            })
+            .collect();
+        let ctors: Vec<(&str, Box<dyn Fn() -> VfsPath + Sync>)> = vec![
+            ("MemoryFS::default()", Box::new(|| VfsPath::new(vfs::MemoryFS::default()))),
+            ("VfsPath::from(MemoryFS::new())", Box::new(|| VfsPath::from(vfs::MemoryFS::new()))),
+            ("VfsPath::from(MemoryFS::default())", Box::new(|| VfsPath::from(vfs::MemoryFS::default()))),
+        ];
+        let mut cs = Stats { label: "constructors of the in-memory backend: programs of <= 2 calls against MemoryFS::new()".into(), fixpoint: true, states: 1, ..Default::default() };
+        let probes = u4().paths.clone();
+        for (label, mk) in &ctors {
+            let mut programs: Vec<Vec<&Op>> = vec![vec![]];
+            for a in &ops {
+                programs.push(vec![a]);
+            }
+            for a in ops.iter().filter(|o| o.is_primitive() || matches!(o, Op::CreateDirAll(_))) {
+                for b in &ops {
+                    programs.push(vec![a, b]);
+                }
+            }
+            let mut bad = 0;
+            for prog in &programs {
+                let (x, y) = (mk(), VfsPath::new(vfs::MemoryFS::new()));
+                let mut differs = None;
+                for op in prog {
+                    let (ox, oy) = (apply(&x, op), apply(&y, op));
+                    cs.transitions += 1;
+                    if ox.class() != oy.class() {
+                        differs = Some(format!("{}: {} vs {}", op.show(), ox.short(), oy.short()));
+                        break;
+                    }
+                }
+                if differs.is_none() && !crate::snapshot::snapshot(&x, &probes).same_tree(&crate::snapshot::snapshot(&y, &probes)) {
+                    differs = Some("observable trees differ".into());
+                }
+                if let Some(d) = differs {
+                    bad += 1;
+                    if bad <= 2 {
+                        vio.push(Violation {
+                            property: "C02".into(),
+                            signature: format!("Mem|constructor|{}|behaves-differently-from-new", label),
+                            summary: format!("a filesystem built with {} after {:?}: {}", label, prog.iter().map(|o| o.show()).collect::<Vec<_>>(), d),
+                            replay: json!({"engine": "constructors", "constructor": label, "program": prog.iter().map(|o| o.to_json()).collect::<Vec<_>>()}),
+                        });
+                    }
+                }
+            }
+        }
+        println!("  [{}] calls={}", cs.label, cs.transitions);
+        stats.push(cs);
+    }
     // write sessions with several write / seek / flush calls on one handle: both backends against
     // the same cursor model, hence against each other (the BFS above only has whole sessions)
     let depth = if thorough { 5 } else { 4 };
     let mut ws = Stats { label: format!("Mem~Phys write/seek/flush scripts of depth {} on create handles, published bytes after every flush and after drop", depth), fixpoint: true, states: 1, ..Default::default() };
     for b in [crate::handle::HB::Mem, crate::handle::HB::Phys] {
         for prior in [None, Some(&b"abc"[..])] {
-            let (st, v) = crate::handle::writer_scripts("C02", b, prior, false, depth);
+            // (the physical backend is the reference here: one step less keeps the run short)
+            let d = if b.is_phys() { depth - 1 } else { depth };
+            let (st, v) = crate::handle::writer_scripts("C02", b, prior, false, d);
             ws.transitions += st.steps;
             ws.nontrivial += st.classes.len() as u64;
             vio.extend(v);
@@ -294,6 +358,80 @@ fn alt_pair(x: Cfg, p: &str, order: Order, alpha: Alphabet) -> PairSpace {
         Box::new(move || sync_sys(&Cfg::alt(x1.clone(), &p1), order, "")),
         Box::new(move || twin_sys(&x2, order, &p2)),
     )
+}
+
+/// Write handles obtained through an altroot against handles obtained on P/q of a twin: every
+/// script of `depth` write / write_all / seek / flush steps, call by call; after every step the
+/// step's result and the bytes the UNDERLYING filesystem shows at P/q must be the same on both
+/// sides (an adapter that buffers, reorders or delays writes is not an exact re-rooting).
+fn altroot_handle_lockstep(depth: usize, vio: &mut Vec<Violation>) -> u64 {
+    use crate::handle::{do_wstep_pub, writer_steps, WStep};
+    use rayon::prelude::*;
+    let steps = writer_steps();
+    let n = steps.len();
+    let total = n.pow(depth as u32);
+    let mut work: Vec<(Cfg, Option<&'static [u8]>, bool, usize)> = vec![];
+    for x in [Cfg::Phys, Cfg::Mem] {
+        for (prior, append) in [(None, false), (Some(&b"abc"[..]), false), (Some(&b"abc"[..]), true)] {
+            for code in 0..total {
+                work.push((x.clone(), prior, append, code));
+            }
+        }
+    }
+    let res: Vec<Option<Violation>> = work
+        .par_iter()
+        .map(|(x, prior, append, code)| {
+            let mut script: Vec<WStep> = vec![];
+            let mut c = *code;
+            for _ in 0..depth {
+                script.push(steps[c % n].clone());
+                c /= n;
+            }
+            let init: Init = match prior {
+                Some(b) => vec![(0, vec![("/f".to_string(), Node::File(b.to_vec()))])],
+                None => vec![],
+            };
+            let a = build(&Cfg::alt(x.clone(), "/Z"), Order::Asc, &init);
+            let t = build(x, Order::Asc, &vec![]);
+            make_altroot_dir(&t.root, "/Z", true);
+            if let Some(b) = prior {
+                let _ = PathApi::write_file(&t.root.join("Z/f").unwrap(), b);
+            }
+            let (pa, pt) = (a.root.join("f").unwrap(), t.root.join("Z/f").unwrap());
+            let (ua, ut) = (a.bases[0].raw.join("Z/f").unwrap(), t.bases[0].raw.join("Z/f").unwrap());
+            let open = |p: &VfsPath| if *append { p.append_file() } else { p.create_file() };
+            let (mut ha, mut ht) = match (open(&pa), open(&pt)) {
+                (Ok(x), Ok(y)) => (x, y),
+                _ => return None,
+            };
+            for (i, s) in script.iter().enumerate() {
+                let (ra, rt) = (do_wstep_pub(ha.as_mut(), s), do_wstep_pub(ht.as_mut(), s));
+                let (oa, ot) = (PathApi::read_all(&ua).ok(), PathApi::read_all(&ut).ok());
+                if ra != rt || oa != ot {
+                    return Some(Violation {
+                        property: "C07".into(),
+                        signature: format!("Alt({},/Z)~twin|{}-handle|{}", x.label(), if *append { "append" } else { "create" }, if ra != rt { "step-results-differ" } else { "underlying-bytes-differ-while-the-handle-is-open" }),
+                        summary: format!("{} handle through Alt({},/Z) vs the same handle on /Z/f (prior content {:?}), script {:?}: step {:?} returned {:?} vs {:?}; the underlying filesystem shows {:?} vs {:?}", if *append { "append" } else { "create" }, x.label(), prior.map(String::from_utf8_lossy), &script[..=i], s, ra, rt, oa.as_ref().map(|b| String::from_utf8_lossy(b).into_owned()), ot.as_ref().map(|b| String::from_utf8_lossy(b).into_owned())),
+                        replay: json!({"engine": "altroot-handle-lockstep", "underlying": x.label(), "append": append, "prior": prior, "script": format!("{:?}", &script[..=i])}),
+                    });
+                }
+            }
+            drop(ha);
+            drop(ht);
+            let (oa, ot) = (PathApi::read_all(&ua).ok(), PathApi::read_all(&ut).ok());
+            if oa != ot {
+                return Some(Violation {
+                    property: "C07".into(),
+                    signature: format!("Alt({},/Z)~twin|{}-handle|underlying-bytes-differ-after-drop", x.label(), if *append { "append" } else { "create" }),
+                    summary: format!("script {:?}: after the drop the underlying filesystem shows {:?} vs {:?}", script, oa, ot),
+                    replay: json!({"engine": "altroot-handle-lockstep", "underlying": x.label(), "append": append, "prior": prior, "script": format!("{:?}", script)}),
+                });
+            }
+            None
+        })
+        .collect();
+    vio.extend(crate::handle::dedupe(res.into_iter().flatten().collect()));
+    work.len() as u64
 }
 
 /// Join arguments built from <= k tokens of a hostile token set, glued with '/' or with the
@@ -703,6 +841,17 @@ pub fn run_c07(ctx: &Ctx) -> i32 {
     };
     hs.samples = vec![hostile_args(2).into_iter().take(12).collect()];
     stats.push(hs);
+    // write handles through the altroot against the same handles on P/q, call by call
+    let hd = if thorough { 4 } else { 3 };
+    let hn = altroot_handle_lockstep(hd, &mut vio);
+    println!("  [write handles through Alt(X,/Z) vs handles on /Z/f of a twin, scripts of depth {}] scripts={}", hd, hn);
+    stats.push(Stats {
+        label: format!("altroot write handles against twin handles, every script of {} steps, results and underlying bytes after every step", hd),
+        states: 1,
+        transitions: hn * hd as u64,
+        fixpoint: true,
+        ..Default::default()
+    });
     let counts = counts_of(&stats);
     let cov = bfs_coverage(
         &stats,
